@@ -52,14 +52,14 @@ def tlc_walks(name, consts, walks, depth):
 
 
 def tlc_kernels(name, consts, workers=2, timeout=900):
-    cfg = make_cfg("Spec", consts, ["Inv_Pair", "Inv_Quant", "Inv_F16", "Inv_Train"], [])
+    cfg = make_cfg("Spec", consts, ["Inv_Pair", "Inv_Quant", "Inv_F16", "Inv_Train", "Inv_Rb8"], [])
     return name, run_tlc("MC_Kernels", name + ".cfg", cfg_text=cfg, workers=workers, timeout=timeout)
 
 
 def kernel_consts(kind, quick):
     base = {"Kinds": "<- k_Empty", "C1": "<- k_Empty", "C2": "<- k_Empty", "C3": "<- k_Empty", "C4": "<- k_Empty",
             "MisDims": "<- k_Empty", "QA": "<- k_Empty", "QN": "<- k_Empty", "QDen": "<- k_Den1", "TrainM": "<- k_Empty",
-            "TrainD": "<- k_Empty", "F16N": "<- k_Empty", "RbN": "<- k_Empty"}
+            "TrainD": "<- k_Empty", "F16N": "<- k_Empty", "RbN": "<- k_Empty", "RbA": "<- k_Empty"}
     c = dict(base)
     c["Kinds"] = '{"%s"}' % kind
     if kind == "pair":
@@ -79,8 +79,7 @@ def kernel_consts(kind, quick):
     elif kind == "f16":
         c.update(F16N="<- k_F16Nq" if quick else "<- k_F16N")
     elif kind == "rb8":
-        c.update(QA="<- k_QAq" if quick else "<- k_QA", QDen="<- k_Den1" if quick else "<- k_Den14",
-                 RbN="<- k_RbNq" if quick else "<- k_RbN")
+        c.update(RbA="<- k_RbAq" if quick else "<- k_RbA", QDen="<- k_Den14", RbN="<- k_RbNq" if quick else "<- k_RbN")
     return c
 
 
@@ -427,6 +426,11 @@ def run(tier):
         "target choice of compactChunk matched by the livelock witness probe: Policy = \"%s\" of Arena.tla (\"impl\" = the code as found, "
         "\"fixed\" = the repair proposed with finding KF-C18-1); allocator state is compared exactly against that policy" % policy,
         "pure-Go build only (no 'rust' tag, no AVX assembly): SIMD/Rust kernels are out of scope",
+        "int8 exists only with the cosine metric, and a cosine index stores the UNIT vector for every precision: the read-back law of the "
+        "int8 index is q_i = clip(roundHalfAway(127 * (x_i/|x|) / AbsMax), +-127) * AbsMax/127, decided by TLC on cross-multiplied squared integers "
+        "(both neighbours admitted when a rounding boundary is closer than 1e-5 relative); the raw-vector law (clip, never wrap) is checked on "
+        "distance.Quantizer itself incl. magnitudes 2^24 and 2^30 times the unit; the index distance is decided from the integers the index "
+        "really returns and the raw-quantised query (ComputeDistanceToVector does not normalise an int8 query; only hnsw search does)",
         "NOT decided: tolerance bounds of kernels/quantiser for general float magnitudes (denormal..large, NaN/Inf, float16 overflow "
         "beyond 65504) and the clause 'compression perturbs rankings only among near-ties' for general data - only lattice instances "
         "(integers |c| <= 127 resp. n/4096, dimensions 0..4, AbsMax in {1,2,3,127,254,381}/{1,4}) are decided, where the spec's integers are exact",
